@@ -10,7 +10,7 @@ from tools import chan, vlib
 class C16(vlib.Spec):
     model_vo = ["theories/Chan/ModelMpscChk.vo"]  # definitions only: runs even if a proof breaks
     props_vo = "theories/Props/C16.vo"
-    theorems = ["C16_fifo_exactly_once", "C16_history_faithful", "C16_closure_consistent",
+    theorems = ["C16_fifo_exactly_once", "C16_history_faithful", "C16_closure_consistent", "C16_try_send_closure",
                 "C16_no_strand", "C16_waiting_implies_runnable",
                 "C16_no_rx_strand", "C16_holds_b_on_model", "C16_agree_implies_holds"]
     crate, group, binary = "h_chan", "dfir", "h_chan"
@@ -23,11 +23,9 @@ class C16(vlib.Spec):
                     "the executor model: a task polls all outstanding futures of its stage in join order; "
                     "a woken task is eventually polled"]
     assumptions = ["model validated against dfir_rs::util::unsync::mpsc only on the generated label sequences",
-                   "single-threaded (the type is !Send); no select!-style cancellation of an individual send "
-                   "future (only dropping the whole sender task, with all its futures)",
-                   "Sender::clone / try_send / the Sink impl (other than close_this_sender, which poll_close calls) are "
-                   "not part of the label alphabet"]
-    rule = ("label sequences (poll sender task / poll receiver / drop sender / close_this_sender / close / drop receiver) enabled "
+                   "single-threaded (the type is !Send)",
+                   "the Sink impl (other than close_this_sender, which poll_close calls) is not part of the label alphabet"]
+    rule = ("label sequences (poll sender task / poll receiver / drop sender / close_this_sender / try_send / clone sender for a new task / cancel one send future / close / drop receiver) enabled "
             "in the model's executor policy, on 1-3 sender tasks with 1-3 stages of 1-2 outstanding sends, "
             "capacity 1, 2 or unbounded; non-trivial = at least one send returned Pending (full) and at "
             "least one waker fired; distinct by case hash")
